@@ -13,6 +13,7 @@ import (
 	"sync/atomic"
 	"time"
 
+	"github.com/thushan/olla/internal/adapter/proxy/olla"
 	"github.com/thushan/olla/verifharness/backend"
 	"github.com/thushan/olla/verifharness/ev"
 	"github.com/thushan/olla/verifharness/rawclient"
@@ -26,6 +27,10 @@ type FlightCase struct {
 	Backends []string `json:"backends"` // hold | refuse | rst0 ; at least one hold
 	Prio     []int    `json:"prio"`
 	Clients  int      `json:"clients"`
+	// Trip (olla engine): once everything is parked, the breakers of the hold endpoints are opened
+	// through the engine's API and three more requests arrive: skipping an endpoint whose breaker is
+	// open must leave the count of the attempts still in flight there untouched
+	Trip bool `json:"trip,omitempty"`
 }
 
 func holdScript(id string) backend.Script {
@@ -52,7 +57,7 @@ func runFlight(c FlightCase) []ev.Violation {
 		}
 		eps = append(eps, rig.EP{Backend: be, Priority: c.Prio[i], BasePath: fmt.Sprintf("/u%d", atomic.AddInt64(&urlSeq, 1))})
 	}
-	_, urls, err := r.Setup(eps)
+	names, urls, err := r.Setup(eps)
 	if err != nil {
 		rec.Inconclusive("setup: " + err.Error())
 		return nil
@@ -155,6 +160,35 @@ func runFlight(c FlightCase) []ev.Violation {
 		rec.NT(fmt.Sprintf("inflight|%s|%s|%v|%v|%d", c.Engine, c.Balancer, c.Backends, c.Prio, c.Clients))
 	}
 	rec.Class("inflight/parked")
+	if svc, ok := r.S.Proxy.(*olla.Service); ok && c.Trip && len(vs) == 0 {
+		for i, o := range c.Backends {
+			if o == "hold" && per[i] > 0 {
+				cb := svc.GetCircuitBreaker(names[i])
+				for k := 0; k < 5; k++ {
+					cb.RecordFailure()
+				}
+			}
+		}
+		var extra sync.WaitGroup
+		for k := 0; k < 3; k++ {
+			extra.Add(1)
+			wg.Add(1)
+			go func() {
+				defer extra.Done()
+				defer wg.Done()
+				_, _ = rawclient.Do(r.S.Addr, req, 30*time.Second)
+			}()
+		}
+		time.Sleep(300 * time.Millisecond)
+		_, per2 := parked()
+		g2 := r.S.Stats.GetConnectionStats()
+		for i, o := range c.Backends {
+			if o == "hold" && g2[urls[i]] != int64(per2[i]) {
+				bad("inflight-gauge-wrong/after-breaker-skip", "endpoint %d (hold): gauge %d while %d attempt(s) are parked there, after its breaker was opened and 3 more requests arrived (before: gauge %d, parked %d): %s", i, g2[urls[i]], per2[i], g[urls[i]], per[i], desc)
+			}
+		}
+		rec.Class("inflight/breaker-tripped-while-parked")
+	}
 	drain(release, &wg)
 	after, ok := settle(r, asCase, urls)
 	if !ok {
@@ -216,5 +250,6 @@ func genFlight(t *rapid.T) FlightCase {
 		c.Prio = append(c.Prio, rapid.SampledFrom([]int{100, 100, 200, 300}).Draw(t, "prio"))
 	}
 	c.Backends[rapid.IntRange(0, n-1).Draw(t, "holdidx")] = "hold"
+	c.Trip = c.Engine == "olla" && rapid.Bool().Draw(t, "trip")
 	return c
 }
